@@ -392,13 +392,8 @@ CodecLemmaCases ==
   \cup {[kind |-> "lemma-codec-p", S |-> S] : S \in (SUBSET {0, 1, 2, 5, 255, 256, 300, 700}) \ {{}}}
   \cup {[kind |-> "lemma-codec-big", n |-> n] : n \in {64, 65, 127, 128, 129, 200}}
 
-Cases == FontCases \cup ScalarLemmaCases \cup IupLemmaCases \cup CodecLemmaCases
-
 ---------------------------------------------------------------------------
-Init == /\ c \in Cases
-        /\ done = FALSE
-Next == /\ ~done /\ done' = TRUE /\ UNCHANGED c
-Spec == Init /\ [][Next]_vars
+\* (Cases, Init, Next and Spec are at the end of the module, after the generation-2 universes)
 
 \* ---- lemma: scalar ------------------------------------------------------------------------------------------
 QEq(a, b) == QCmp(a, b) = 0
@@ -587,7 +582,479 @@ EmitCase ==
                              user |-> us, norm |-> [k \in 1 .. Len(us) |-> NormOf(us[k])],
                              expect |-> [k \in 1 .. Len(us) |-> ExpectSeq(c, us[k])]])>>)
 
+
+\* =====================================================================================================
+\* Generation 2 ("font2"): general fonts - any number of glyphs, composites of composites in any glyph
+\* order, fvar axes with real ranges, avar segment maps, item variation stores with several sub-tables /
+\* LONG_WORDS / arbitrary region index lists, delta-set index maps of every entry format, MVAR record
+\* sizes and tag subsets, fvar layouts.  A case carries its own user tuples (design units); the
+\* normalised tuple is computed here, with exact integer arithmetic, and bound to Normalize.tla (C13's
+\* specification) by the invariant NormOK.
+\* =====================================================================================================
+NZ == INSTANCE Normalize
+
+\* ---- normalisation (plain integers; every value chosen so that the exact result is a 2.14 integer) ----
+DefN(ax, v) ==
+  LET cl == IF v < ax[1] THEN ax[1] ELSE IF v > ax[3] THEN ax[3] ELSE v IN
+  IF cl < ax[2] THEN -(((ax[2] - cl) * U) \div (ax[2] - ax[1]))
+  ELSE IF cl > ax[2] THEN ((cl - ax[2]) * U) \div (ax[3] - ax[2])
+  ELSE 0
+AvarN(map, n) ==
+  IF map = <<>> THEN n
+  ELSE LET k == CHOOSE j \in 1 .. Len(map) - 1 : map[j][1] <= n /\ n <= map[j + 1][1] IN
+       map[k][2] + ((n - map[k][1]) * (map[k + 1][2] - map[k][2])) \div (map[k + 1][1] - map[k][1])
+MapOf(cs, k) == IF cs.avar.present THEN cs.avar.maps[k] ELSE <<>>
+Norm2(cs, user) == [k \in 1 .. Len(cs.axes) |-> Clamp(AvarN(MapOf(cs, k), DefN(cs.axes[k], user[k])))]
+
+\* tolerance granted to the tuple an implementation reports: max(1, steepest slope of the map), in units
+RECURSIVE MaxSlopeUp(_, _)
+MaxSlopeUp(map, k) ==
+  IF k >= Len(map) THEN 1
+  ELSE LET dt == map[k + 1][2] - map[k][2]
+           df == map[k + 1][1] - map[k][1]
+           sl == (dt + df - 1) \div df
+           rest == MaxSlopeUp(map, k + 1)
+       IN IF sl > rest THEN sl ELSE rest
+NTol(cs) == [k \in 1 .. Len(cs.axes) |-> MaxSlopeUp(MapOf(cs, k), 1)]
+
+\* the value computed above is the exact value of Normalize.tla (zero error), and conforms to it
+NormOK(cs) ==
+  \A user \in cs.users : \A k \in 1 .. Len(cs.axes) :
+    LET ax == cs.axes[k]
+        map == MapOf(cs, k)
+        out == Norm2(cs, user)[k]
+        n == NZ!DefNorm(ax, user[k])
+    IN /\ NZ!ValidAxis(ax) /\ NZ!MapValid(U, map)
+       /\ NZ!Verdict(U, ax, cs.avar.present, map, user[k], out) = ""
+       /\ IF map = <<>> THEN ZEq(ZMul(ZOf(out), n.den), ZMul(ZOf(U), n.num))
+          ELSE \E j \in 1 .. Len(map) - 1 :
+                 /\ NZ!SegHolds(U, map, n, j)
+                 /\ LET e == NZ!SegExact(U, map, n, j) IN ZEq(ZMul(ZOf(out), e.Q), e.P)
+
+\* ---- glyphs ---------------------------------------------------------------------------------------------
+\* pp1: x of the first phantom point of the default master (lsb = xMin - pp1; 0: the font keeps lsb = xMin)
+GEmpty(gv, adv) == [kind |-> "empty", pts |-> <<>>, ends |-> <<>>, comps |-> <<>>, gv |-> gv, adv |-> adv, pp1 |-> 0]
+GSimple(sh, gv, adv, pp1) == [kind |-> "simple", pts |-> ShapeOf(sh).pts, ends |-> ShapeOf(sh).ends, comps |-> <<>>,
+                             gv |-> gv, adv |-> adv, pp1 |-> pp1]
+\* comps: sequence of <<glyph id, x offset, y offset>>
+GComp(comps, gv, adv, pp1) == [kind |-> "composite", pts |-> <<>>, ends |-> <<>>, comps |-> comps,
+                              gv |-> gv, adv |-> adv, pp1 |-> pp1]
+
+\* bounding box of the default master: <<xMin, yMin, xMax, yMax>>, <<>> when nothing is drawn
+RECURSIVE DBox(_, _)
+DBox(gl, gid) ==
+  LET d == gl[gid + 1] IN
+  IF d.kind = "simple"
+  THEN LET K == 1 .. Len(d.pts) IN
+       <<Min({d.pts[k][1] : k \in K}), Min({d.pts[k][2] : k \in K}), Max({d.pts[k][1] : k \in K}), Max({d.pts[k][2] : k \in K})>>
+  ELSE IF d.kind = "composite"
+  THEN LET CB(k) == DBox(gl, d.comps[k][1])
+           bs == {<<CB(k)[1] + d.comps[k][2], CB(k)[2] + d.comps[k][3], CB(k)[3] + d.comps[k][2], CB(k)[4] + d.comps[k][3]>> :
+                    k \in {j \in 1 .. Len(d.comps) : CB(j) # <<>>}}
+       IN IF bs = {} THEN <<>>
+          ELSE <<Min({b[1] : b \in bs}), Min({b[2] : b \in bs}), Max({b[3] : b \in bs}), Max({b[4] : b \in bs})>>
+  ELSE <<>>
+
+NG(cs) == Len(cs.glyphs)
+G2Rec(cs, gid) ==
+  LET d == cs.glyphs[gid + 1] IN
+  GlyphRec(d.kind,
+           IF d.kind = "simple" THEN [k \in 1 .. Len(d.pts) |-> <<d.pts[k][1], d.pts[k][2]>>]
+           ELSE [k \in 1 .. Len(d.comps) |-> <<d.comps[k][2], d.comps[k][3]>>],
+           d.ends, d.gv)
+
+\* ---- item variation stores and index maps, general form -----------------------------------------------------
+\* sub-table: [ri, rows, long (LONG_WORDS), words (number of leading word columns)]
+\* map: [present, format (0: 16-bit count, 1: 32-bit count), fmt (entry format byte), entries <<outer, inner>>]
+NoMap2 == [present |-> FALSE, format |-> 0, fmt |-> 0, entries |-> <<>>]
+NoHvar2 == [present |-> FALSE, regions |-> <<>>, subs |-> <<>>, adv |-> NoMap2, lsb |-> NoMap2]
+NoMvar2 == [present |-> FALSE, regions |-> <<>>, subs |-> <<>>, recs |-> <<>>, recSize |-> 8]
+
+EntrySize(fmt) == ((fmt \div 16) % 4) + 1
+EntryBits(fmt) == (fmt % 16) + 1
+BytesBE(v, size) == [j \in 1 .. size |-> (v \div P2(8 * (size - j))) % 256]
+EncMap(entries, fmt) ==
+  FlattenSeq([k \in 1 .. Len(entries) |-> BytesBE(entries[k][1] * P2(EntryBits(fmt)) + entries[k][2], EntrySize(fmt))])
+MapRec2(m) == IF ~m.present THEN MapRec(<<>>)
+              ELSE [present |-> TRUE, fmt |-> m.fmt, count |-> Len(m.entries), data |-> EncMap(m.entries, m.fmt)]
+IvsRec2(regions, subs) ==
+  [regions |-> regions, subs |-> [k \in 1 .. Len(subs) |-> [ri |-> subs[k].ri, rows |-> subs[k].rows]]]
+HvarRec2(h) ==
+  IF ~h.present THEN HvarRec(NoHvar)
+  ELSE [present |-> TRUE, ivs |-> IvsRec2(h.regions, h.subs), adv |-> MapRec2(h.adv), lsb |-> MapRec2(h.lsb)]
+
+\* number of leading word columns a set of rows needs
+WordsFor(rows) ==
+  LET wide == {k \in 1 .. (IF rows = <<>> THEN 0 ELSE Len(rows[1])) : \E r \in 1 .. Len(rows) : rows[r][k] < -128 \/ rows[r][k] > 127}
+  IN IF wide = {} THEN 0 ELSE Max(wide)
+Sub(ri, rows) == [ri |-> ri, rows |-> rows, long |-> FALSE, words |-> WordsFor(rows)]
+SubLong(ri, rows, words) == [ri |-> ri, rows |-> rows, long |-> TRUE, words |-> words]
+
+\* the layout can hold the numbers: deltas fit their columns, map entries fit their format, indices exist
+SubFits(sb, nregions) ==
+  /\ \A k \in 1 .. Len(sb.ri) : sb.ri[k] < nregions
+  /\ sb.words <= Len(sb.ri)
+  /\ \A r \in 1 .. Len(sb.rows) :
+       /\ Len(sb.rows[r]) = Len(sb.ri)
+       /\ \A k \in 1 .. Len(sb.ri) :
+            LET v == sb.rows[r][k] IN
+            IF sb.long THEN (k <= sb.words \/ (v >= -32768 /\ v <= 32767))
+            ELSE (v >= -32768 /\ v <= 32767) /\ (k <= sb.words \/ (v >= -128 /\ v <= 127))
+MapFits(m, subs) ==
+  ~m.present \/
+  /\ Len(m.entries) > 0
+  /\ EntryBits(m.fmt) <= 8 * EntrySize(m.fmt)
+  /\ \A k \in 1 .. Len(m.entries) :
+       LET en == m.entries[k] IN
+       /\ en[2] < P2(EntryBits(m.fmt))
+       /\ en[1] < P2(8 * EntrySize(m.fmt) - EntryBits(m.fmt)) /\ en[1] < 16384
+       /\ en[1] < Len(subs) /\ en[2] < Len(subs[en[1] + 1].rows)
+LayoutOK(cs) ==
+  /\ cs.hvar.present =>
+       /\ \A k \in 1 .. Len(cs.hvar.subs) : SubFits(cs.hvar.subs[k], Len(cs.hvar.regions))
+       /\ MapFits(cs.hvar.adv, cs.hvar.subs) /\ MapFits(cs.hvar.lsb, cs.hvar.subs)
+       /\ (~cs.hvar.adv.present => Len(cs.hvar.subs[1].rows) >= NG(cs))
+  /\ cs.mvar.present =>
+       /\ \A k \in 1 .. Len(cs.mvar.subs) : SubFits(cs.mvar.subs[k], Len(cs.mvar.regions))
+       /\ cs.mvar.recSize >= 8
+       /\ \A k \in 1 .. Len(cs.mvar.recs) :
+            LET rc == cs.mvar.recs[k] IN rc.outer < Len(cs.mvar.subs) /\ rc.inner < Len(cs.mvar.subs[rc.outer + 1].rows)
+
+A2Rec(cs, gid, coords) ==
+  LET d == cs.glyphs[gid + 1]
+      b == DBox(cs.glyphs, gid)
+      xm == IF b = <<>> THEN 0 ELSE b[1]
+  IN [gid |-> gid, coords |-> coords, hvar |-> HvarRec2(cs.hvar), plain |-> TRUE, kind |-> d.kind,
+      adv |-> IF gid < cs.nhm THEN d.adv ELSE cs.glyphs[cs.nhm].adv,
+      lsb |-> xm - d.pp1, xmin |-> xm]
+
+\* ---- invariants on font2 cases -------------------------------------------------------------------------------
+DecodeGlyphOK(gv, g, np) ==
+  \A k \in 1 .. Len(gv.tuples) :
+    LET td == TupleDeltas(TupleData(g, k), gv.tuples[k].private, SharedPts(g), np)
+        ab == AbstractTD(gv, gv.tuples[k], np)
+    IN td.has = ab.has /\ td.dx = ab.dx /\ td.dy = ab.dy /\ td.used = g.tuples[k].size
+
+DefaultGlyphOK(g, a) ==
+  LET n == Len(g.pts)
+      ev == Eval(g, DefaultPhantom(a), a.coords)
+  IN /\ \A i \in 0 .. n - 1 : QIsInt(ev.x[i], g.pts[i + 1][1]) /\ QIsInt(ev.y[i], g.pts[i + 1][2])
+     /\ QIsInt(ev.x[n], a.xmin - a.lsb) /\ QIsInt(ev.x[n + 1], a.xmin - a.lsb + a.adv)
+     /\ QIsInt(ExactAdvance(a, n, ev), a.adv)
+     /\ GlyphJudged(g, a)
+
+\* composites refer to existing glyphs, never (transitively) to themselves, and draw something
+RECURSIVE Reaches(_, _, _, _)
+Reaches(gl, from, to, fuel) ==
+  fuel > 0 /\ gl[from + 1].kind = "composite" /\
+  \E k \in 1 .. Len(gl[from + 1].comps) :
+     LET ch == gl[from + 1].comps[k][1] IN ch = to \/ Reaches(gl, ch, to, fuel - 1)
+TreeOK(cs) ==
+  \A gid \in 0 .. NG(cs) - 1 :
+    cs.glyphs[gid + 1].kind = "composite" =>
+      /\ \A k \in 1 .. Len(cs.glyphs[gid + 1].comps) : cs.glyphs[gid + 1].comps[k][1] \in 0 .. NG(cs) - 1
+      /\ ~Reaches(cs.glyphs, gid, gid, NG(cs))
+      /\ DBox(cs.glyphs, gid) # <<>>
+
+Font2OK(cs) ==
+  /\ TreeOK(cs) /\ LayoutOK(cs) /\ NormOK(cs)
+  /\ cs.nhm \in 1 .. NG(cs)
+  /\ \A gid \in 0 .. NG(cs) - 1 :
+       /\ DecodeGlyphOK(cs.glyphs[gid + 1].gv, G2Rec(cs, gid), Len(G2Rec(cs, gid).pts) + 4)
+       /\ DefaultGlyphOK(G2Rec(cs, gid), A2Rec(cs, gid, [k \in 1 .. Len(cs.axes) |-> 0]))
+FontOK2 == (done /\ c.kind = "font2") => Font2OK(c)
+
+\* ---- universes --------------------------------------------------------------------------------------------------
+Lay0 == [fvAxisSize |-> 20, fvOffset |-> 16, fvInst |-> 0, fvPsid |-> FALSE]
+MkCase2(fam, var, axes, avar, glyphs, hvar, mvar, lay, users) ==
+  [kind |-> "font2", fam |-> fam, var |-> var, axes |-> axes, avar |-> avar, glyphs |-> glyphs, long |-> FALSE,
+   nhm |-> Len(glyphs), hvar |-> hvar, mvar |-> mvar, lay |-> lay, users |-> users]
+NoAvar == [present |-> FALSE, maps |-> <<>>]
+
+RowN(base, nr) == [k \in 1 .. nr |-> base + 17 * (k - 1) * (IF k % 2 = 0 THEN -1 ELSE 1)]
+MvarRow(j, nr) == CASE j = 1 -> [k \in 1 .. nr |-> 33 * k]
+                    [] j = 2 -> [k \in 1 .. nr |-> -301 - k]
+                    [] j = 3 -> [k \in 1 .. nr |-> IF k = 1 THEN 7 ELSE 0]
+                    [] j = 4 -> [k \in 1 .. nr |-> -15 * k]
+                    [] j = 5 -> [k \in 1 .. nr |-> 129]
+                    [] OTHER -> [k \in 1 .. nr |-> (IF (j + k) % 2 = 0 THEN 1 ELSE -1) * (11 * j + 3 * k)]
+\* value records for the tags `tags` (a set); the delta row of a tag is fixed by its place in MvarTags
+MvarRecs(tags) ==
+  LET ks == {k \in 1 .. Len(MvarTags) : MvarTags[k] \in tags} IN
+  [i \in 1 .. Cardinality(ks) |-> [tag |-> MvarTags[SetToSortSeq(ks, <)[i]], outer |-> 0, inner |-> SetToSortSeq(ks, <)[i] - 1]]
+Mvar2(regions, tags, recSize) ==
+  [present |-> TRUE, regions |-> regions,
+   subs |-> <<Sub([k \in 1 .. Len(regions) |-> k - 1], [j \in 1 .. Len(MvarTags) |-> MvarRow(j, Len(regions))])>>,
+   recs |-> MvarRecs(tags), recSize |-> recSize]
+AllTags == {MvarTags[k] : k \in 1 .. Len(MvarTags)}
+
+\* -- family "avar": 2 - 3 axes with real ranges, a segment map per axis, user tuples over the product of
+\*    {min, between, default, between, max} per axis (plus values outside the range)
+AxA == <<100, 400, 900>>
+AxB == <<0, 0, 100>>                  \* default = minimum
+AxC == <<-20, 0, 10>>
+MarksOf(k) == CASE k = 1 -> {100, 250, 400, 650, 900} [] k = 2 -> {0, 25, 50, 100} [] OTHER -> {-20, -10, 0, 5, 10}
+FewOf(k)   == CASE k = 1 -> {250, 400, 900} [] k = 2 -> {0, 50, 100} [] OTHER -> {-10, 0, 5}
+MapId    == <<<<-U, -U>>, <<0, 0>>, <<U, U>>>>
+MapBent  == <<<<-U, -U>>, <<-Hf, -12288>>, <<0, 0>>, <<Hf, Qt>>, <<U, U>>>>
+MapSteep == <<<<-U, -U>>, <<-Hf, -2048>>, <<0, 0>>, <<Hf, 14336>>, <<U, U>>>>
+MapMany  == <<<<-U, -U>>, <<-12288, -14336>>, <<-Hf, -Hf>>, <<-Qt, -2048>>, <<0, 0>>, <<Qt, 1024>>, <<Hf, Hf>>,
+              <<12288, 15360>>, <<U, U>>>>
+MapNamed(nm) == CASE nm = "id" -> MapId [] nm = "bent" -> MapBent [] nm = "steep" -> MapSteep
+                  [] nm = "many" -> MapMany [] OTHER -> <<>>
+
+R3(a, b, cc) == <<a[1], b[1], cc[1]>>
+RegN(na, a, b, cc) == IF na = 2 THEN R2(a, b) ELSE R3(a, b, cc)
+AvarGlyphs(na) ==
+  LET g1 == [shared |-> [present |-> FALSE, all |-> FALSE, pts |-> <<>>, penc |-> "b"],
+             tuples |-> <<MkTuple(RegN(na, P1, Z0, Z0), TRUE, TRUE, TRUE, {}, "A", 9, "b", "min"),
+                          MkTuple(RegN(na, Z0, P1, Z0), FALSE, TRUE, FALSE, {0, 3, 5, 6}, "B", 9, "b", "min"),
+                          MkTuple(RegN(na, I1, P1, Z0), TRUE, TRUE, FALSE, {1, 2, 4}, "A", 9, "b", "min"),
+                          MkTuple(RegN(na, M1, Z0, I1), FALSE, TRUE, FALSE, {0, 2, 5, 6}, "B", 9, "b", "min")>>
+                         \o (IF na = 2 THEN <<>>
+                             ELSE <<MkTuple(R3(Z0, Z0, P1), TRUE, TRUE, FALSE, {1, 3, 4}, "B", 9, "w", "min"),
+                                    MkTuple(R3(Z0, I1, M1), TRUE, TRUE, FALSE, {0, 4}, "A", 9, "b", "min")>>)]
+  IN <<GEmpty(NoVar, 400),
+       GSimple("C", g1, 600, 0),
+       GComp(<<<<1, 25, 5>>, <<1, 225, -45>>>>, CompVar(RegN(na, Z0, P1, Z0), "A", 2), 640, -20),
+       GEmpty(Private(<<MkTuple(RegN(na, P1, P1, Z0), TRUE, TRUE, TRUE, {}, "A", 4, "b", "min")>>), 250)>>
+AvarHvar(na) ==
+  [present |-> TRUE, regions |-> <<RegN(na, P1, Z0, Z0), RegN(na, I1, P1, Z0), RegN(na, Z0, P1, I1)>>,
+   subs |-> <<Sub(<<0, 1, 2>>, <<RowN(0, 3), RowN(64, 3), RowN(-9, 3), RowN(31, 3)>>)>>,
+   adv |-> [present |-> TRUE, format |-> 0, fmt |-> 3, entries |-> <<<<0, 0>>, <<0, 1>>, <<0, 1>>, <<0, 3>>>>],
+   lsb |-> NoMap2]
+AvarUsers(na, full, swap) ==
+  IF na = 2 THEN {IF swap THEN <<b, a>> ELSE <<a, b>> : a \in MarksOf(1) \cup {50, 1000}, b \in MarksOf(2) \cup {130}}
+  ELSE {<<a, b, cc>> : a \in (IF full THEN MarksOf(1) ELSE FewOf(1)), b \in (IF full THEN MarksOf(2) ELSE FewOf(2)),
+                        cc \in (IF full THEN MarksOf(3) ELSE FewOf(3))}
+\* swap (two axes only): the axis whose default is its minimum comes first
+AvarCase(names, hv, full, swap) ==
+  LET na == Len(names)
+      \* longer fvar axis records, a gap before them and instance records: with the HVAR variants
+      lay == IF hv THEN [fvAxisSize |-> 24, fvOffset |-> 20, fvInst |-> 2, fvPsid |-> TRUE] ELSE Lay0
+  IN
+  MkCase2("avar", "avar", IF na = 2 THEN (IF swap THEN <<AxB, AxA>> ELSE <<AxA, AxB>>) ELSE <<AxA, AxB, AxC>>,
+          IF names[1] = "none" THEN NoAvar ELSE [present |-> TRUE, maps |-> [k \in 1 .. na |-> MapNamed(names[k])]],
+          AvarGlyphs(na), IF hv THEN AvarHvar(na) ELSE NoHvar2,
+          Mvar2(<<RegN(na, P1, P1, Z0), RegN(na, Z0, P1, Z0), RegN(na, M1, Z0, P1)>>, AllTags, 8), lay,
+          AvarUsers(na, full, swap))
+AvarNames2 == {<<"id", "bent">>, <<"bent", "id">>, <<"bent", "steep">>, <<"steep", "bent">>, <<"empty", "bent">>,
+               <<"many", "steep">>, <<"none", "none">>}
+AvarNames3 == {<<"id", "bent", "steep">>, <<"steep", "id", "bent">>, <<"bent", "steep", "id">>}
+MapNames == {"id", "bent", "steep", "many", "empty"}
+AvarCases ==
+  IF Thorough
+  THEN {AvarCase(<<a, b>>, hv, TRUE, sw) : a \in MapNames, b \in MapNames, hv \in BOOLEAN, sw \in BOOLEAN}
+       \cup {AvarCase(<<"none", "none">>, hv, TRUE, sw) : hv \in BOOLEAN, sw \in BOOLEAN}
+       \cup {AvarCase(nm, hv, TRUE, FALSE) : nm \in AvarNames3 \cup {<<"many", "many", "bent">>, <<"none", "none", "none">>},
+                                             hv \in BOOLEAN}
+  ELSE {AvarCase(nm, FALSE, FALSE, FALSE) : nm \in AvarNames2 \cup AvarNames3}
+       \cup {AvarCase(<<"bent", "steep">>, TRUE, FALSE, FALSE), AvarCase(<<"many", "id", "steep">>, TRUE, FALSE, FALSE),
+              AvarCase(<<"id", "bent">>, FALSE, FALSE, TRUE),
+              AvarCase(<<"steep", "many">>, FALSE, FALSE, TRUE)}
+
+\* user tuples on which a segment map of an earlier axis, applied to a later axis, would give another value
+AvarSkew(cs) ==
+  Cardinality({u \in cs.users : \E j \in 2 .. Len(cs.axes) : \E i \in 1 .. j - 1 :
+                  /\ DefN(cs.axes[i], u[i]) = 0
+                  /\ AvarN(MapOf(cs, i), DefN(cs.axes[j], u[j])) # AvarN(MapOf(cs, j), DefN(cs.axes[j], u[j]))})
+\* which axes sit at the default: every pattern occurs
+AvarPatterns(cs) == Cardinality({[k \in 1 .. Len(cs.axes) |-> Norm2(cs, u)[k] = 0] : u \in cs.users})
+
+\* -- families "nest" and "lay": one axis 0 .. 50 .. 100
+Ax1 == <<0, 50, 100>>
+Users1 == {<<v>> : v \in {0, 25, 50, 75, 100, 130}}
+
+\* family "nest": composites of composites, depth 3, in three glyph orders.  A, B simple; N = A + B;
+\* P = N + A; R = P + B.  order[k] = name of glyph k - 1.
+NestGlyphs(order, odd, rvar) ==
+  LET pos(nm) == (CHOOSE k \in 1 .. Len(order) : order[k] = nm) - 1
+      gvA == Private(<<MkTuple(P1, TRUE, TRUE, FALSE, {0, 1, 2, 3, 4}, "A", 9, "b", "min"),
+                       MkTuple(M1, TRUE, TRUE, FALSE, {0, 2}, "B", 9, "b", "min")>>)
+      gvB == Private(<<MkTuple(P1, FALSE, TRUE, FALSE, {0, 3}, "B", 8, "b", "min"),
+                       MkTuple(I4, TRUE, TRUE, FALSE, {1, 2}, "A", 8, "b", "min")>>)
+      Def(nm) == CASE nm = "0" -> GEmpty(NoVar, 400)
+                   [] nm = "A" -> GSimple("C", gvA, 600, 0)
+                   [] nm = "B" -> GSimple("A", gvB, 500, IF odd THEN -7 ELSE 0)
+                   [] nm = "N" -> GComp(<<<<pos("A"), 10, 0>>, <<pos("B"), 200, -50>>>>, CompVarPts(P1, {0, 1}, "A", 2), 640, 0)
+                   [] nm = "P" -> GComp(<<<<pos("N"), 0, 0>>, <<pos("A"), 400, 20>>>>,
+                                        IF odd THEN CompVar(I1, "B", 2) ELSE CompVarPts(I1, {0}, "B", 2), 700, IF odd THEN 13 ELSE 0)
+                   [] nm = "R" -> GComp(<<<<pos("P"), -50, 30>>, <<pos("B"), 0, 300>>>>,
+                                        IF rvar THEN CompVarPts(M1, {1}, "A", 2) ELSE NoVar, 800, 0)
+  IN [k \in 1 .. Len(order) |-> Def(order[k])]
+NestOrders == [asc  |-> <<"0", "A", "B", "N", "P", "R">>,
+               desc |-> <<"0", "R", "P", "N", "B", "A">>,
+               mix  |-> <<"0", "P", "A", "R", "N", "B">>]
+NestHvar(kind) ==
+  IF kind = "none" THEN NoHvar2
+  ELSE [present |-> TRUE, regions |-> <<P1, I4, I1>>,
+        subs |-> <<Sub(<<0, 1, 2>>, <<RowN(0, 3), RowN(55, 3), RowN(-200, 3), RowN(31, 3)>>)>>,
+        adv |-> [present |-> TRUE, format |-> 0, fmt |-> 3,
+                 entries |-> <<<<0, 1>>, <<0, 0>>, <<0, 2>>, <<0, 3>>, <<0, 1>>, <<0, 2>>>>],
+        lsb |-> IF kind = "advmap" THEN NoMap2
+                ELSE [present |-> TRUE, format |-> 0, fmt |-> 3, entries |-> <<<<0, 0>>, <<0, 2>>, <<0, 3>>, <<0, 1>>>>]]
+NestCase(ord, hk, odd, rvar) ==
+  MkCase2("nest", ord, <<Ax1>>, NoAvar, NestGlyphs(NestOrders[ord], odd, rvar), NestHvar(hk), NoMvar2, Lay0, Users1)
+NestCases ==
+  IF Thorough
+  THEN {NestCase(ord, hk, odd, rvar) : ord \in {"asc", "desc", "mix"}, hk \in {"none", "advmap", "bothmap"},
+                                      odd \in BOOLEAN, rvar \in BOOLEAN}
+  ELSE {NestCase(ord, hk, FALSE, ord = "mix") : ord \in {"asc", "desc", "mix"}, hk \in {"none", "advmap", "bothmap"}}
+       \cup {NestCase("mix", "none", TRUE, FALSE)}
+
+\* composite components that are composites themselves, by direction of the reference
+NestRefs(cs, fwd) ==
+  Cardinality({<<gid, k>> \in (0 .. NG(cs) - 1) \X (1 .. 4) :
+                 /\ cs.glyphs[gid + 1].kind = "composite" /\ k <= Len(cs.glyphs[gid + 1].comps)
+                 /\ LET ch == cs.glyphs[gid + 1].comps[k][1] IN
+                    cs.glyphs[ch + 1].kind = "composite" /\ (IF fwd THEN ch > gid ELSE ch < gid)})
+RECURSIVE DepthOf(_, _)
+DepthOf(gl, gid) ==
+  IF gl[gid + 1].kind # "composite" THEN 0
+  ELSE 1 + Max({DepthOf(gl, gl[gid + 1].comps[k][1]) : k \in 1 .. Len(gl[gid + 1].comps)})
+NestDepth(cs) == Max({DepthOf(cs.glyphs, gid) : gid \in 0 .. NG(cs) - 1})
+
+\* family "lay": table layouts the formats allow, one at a time around a base font (all of them at once
+\* in the thorough tier)
+LayGlyphs ==
+  <<GEmpty(NoVar, 400),
+    GSimple("D", MetricTuples(1, FALSE, "A"), 600, 0),
+    GComp(<<<<1, -120, 300>>, <<1, 80, 250>>>>, CompVar(P1, "A", 2), 640, -20),
+    GEmpty(Private(<<MkTuple(P1, TRUE, TRUE, TRUE, {}, "A", 4, "b", "min")>>), 250)>>
+LayRegions == <<P1, I4, I1, M1>>
+HRows == <<RowN(0, 3), RowN(40, 3), RowN(-25, 3), RowN(130, 3)>>
+Map2(fmt, format, entries) == [present |-> TRUE, format |-> format, fmt |-> fmt, entries |-> entries]
+\* one sub-table: plain / LONG_WORDS / region indices that are not 0 .. k-1
+HvOne(kind) ==
+  [present |-> TRUE, regions |-> LayRegions,
+   subs |-> <<CASE kind = "long" -> SubLong(<<0, 1, 2>>, HRows, 1)
+                [] kind = "long0" -> SubLong(<<0, 1, 2>>, HRows, 0)
+                [] kind = "ri" -> Sub(<<3, 0, 2>>, HRows)
+                [] kind = "ri1" -> Sub(<<2>>, <<<<5>>, <<-90>>, <<127>>, <<-128>>>>)
+                [] OTHER -> Sub(<<0, 1, 2>>, HRows)>>,
+   adv |-> NoMap2, lsb |-> NoMap2]
+\* one sub-table with maps (outer index 0): every entry size
+HvMap1(fmt, format, lsbToo) ==
+  [HvOne("plain") EXCEPT !.adv = Map2(fmt, format, <<<<0, 2>>, <<0, 0>>, <<0, 3>>>>),
+                         !.lsb = IF lsbToo THEN Map2(fmt, 0, <<<<0, 1>>, <<0, 3>>, <<0, 0>>, <<0, 2>>>>) ELSE NoMap2]
+\* three sub-tables (the second with LONG_WORDS), maps that point across them
+HvMulti(fmt, format, lsbToo) ==
+  [present |-> TRUE, regions |-> LayRegions,
+   subs |-> <<Sub(<<0, 1>>, <<RowN(12, 2), RowN(-300, 2)>>),
+              SubLong(<<2>>, <<<<70>>, <<-45>>, <<1000>>>>, 1),
+              Sub(<<1, 3, 0>>, <<RowN(-60, 3), RowN(25, 3)>>)>>,
+   adv |-> Map2(fmt, format, <<<<1, 2>>, <<0, 1>>, <<2, 0>>, <<2, 1>>>>),
+   lsb |-> IF lsbToo THEN Map2(fmt, 0, <<<<0, 0>>, <<2, 1>>, <<1, 0>>>>) ELSE NoMap2]
+\* entry formats: (entry size - 1) * 16 + (inner bits - 1)
+FmtsMulti == {3, 1, 23, 43, 63, 51, 17}      \* 1 byte 4 / 2 bits; 2 bytes 8 bits; 3 bytes 12; 4 bytes 16; 4 bytes 4; 2 bytes 2
+LayMvarSets == [all |-> AllTags, ends |-> {"cpht", "xhgt"}, mid |-> {"hcrs", "hdsc", "strs"}, one |-> {"undo"}]
+LayMvar(set, size) == Mvar2(<<P1, M1>>, LayMvarSets[set], size)
+\* MVAR whose records point into two sub-tables
+LayMvar2Subs(size) ==
+  [present |-> TRUE, regions |-> <<P1, M1, I1>>,
+   subs |-> <<Sub(<<0, 1>>, [j \in 1 .. 6 |-> MvarRow(j, 2)]), SubLong(<<2, 0>>, [j \in 1 .. 6 |-> MvarRow(j + 6, 2)], 1)>>,
+   recs |-> [k \in 1 .. Len(MvarTags) |-> [tag |-> MvarTags[k], outer |-> (k - 1) \div 6, inner |-> (k - 1) % 6]],
+   recSize |-> size]
+LayCase(var, hvar, mvar, lay) == MkCase2("lay", var, <<Ax1>>, NoAvar, LayGlyphs, hvar, mvar, lay, Users1)
+HvBase == HvMap1(3, 0, TRUE)
+LayCases ==
+  LET mv == {<<"all", 8>>, <<"all", 10>>, <<"all", 12>>, <<"ends", 12>>, <<"mid", 10>>, <<"one", 12>>, <<"mid", 8>>}
+      mvT == {"all", "ends", "mid", "one"} \X {8, 10, 12, 16}
+      lays == {[Lay0 EXCEPT !.fvAxisSize = 24], [Lay0 EXCEPT !.fvOffset = 20], [Lay0 EXCEPT !.fvInst = 2],
+               [Lay0 EXCEPT !.fvInst = 3, !.fvPsid = TRUE],
+               [fvAxisSize |-> 28, fvOffset |-> 24, fvInst |-> 2, fvPsid |-> TRUE]}
+  IN {LayCase("mvar", HvBase, LayMvar(m[1], m[2]), Lay0) : m \in (IF Thorough THEN mvT ELSE mv)}
+     \cup {LayCase("mvar2", HvBase, LayMvar2Subs(sz), Lay0) : sz \in (IF Thorough THEN {8, 10, 12} ELSE {10})}
+     \cup {LayCase("hvone", HvOne(k), LayMvar("all", 8), Lay0) : k \in {"plain", "long", "long0", "ri", "ri1"}}
+     \cup {LayCase("hvmap", HvMap1(f, fm, lt), NoMvar2, Lay0) :
+             f \in {31, 3, 7}, fm \in (IF Thorough THEN {0, 1} ELSE {0}), lt \in (IF Thorough THEN BOOLEAN ELSE {TRUE})}
+     \cup {LayCase("hvmulti", HvMulti(f, fm, lt), NoMvar2, Lay0) :
+             f \in FmtsMulti, fm \in (IF Thorough THEN {0, 1} ELSE {0}), lt \in (IF Thorough THEN BOOLEAN ELSE {TRUE})}
+     \cup {LayCase("hvmulti", HvMulti(3, 1, FALSE), NoMvar2, Lay0)}
+     \cup {LayCase("fvar", HvBase, LayMvar("all", 8), l) : l \in lays}
+     \cup (IF Thorough
+           THEN {LayCase("all", HvMulti(f, 1, TRUE), LayMvar2Subs(sz), l) : f \in {1, 43}, sz \in {10, 12}, l \in lays}
+           ELSE {LayCase("all", HvMulti(43, 1, TRUE), LayMvar2Subs(12), [fvAxisSize |-> 28, fvOffset |-> 24, fvInst |-> 2, fvPsid |-> TRUE])})
+
+Font2Cases == AvarCases \cup NestCases \cup LayCases
+
+\* ---- generator, font2 ------------------------------------------------------------------------------------------------
+SubJson(sb) == [ri |-> sb.ri, rows |-> sb.rows, long |-> sb.long, words |-> sb.words]
+MapJson(m) == [present |-> m.present, format |-> m.format, fmt |-> m.fmt, count |-> Len(m.entries),
+               data |-> IF m.present THEN EncMap(m.entries, m.fmt) ELSE <<>>]
+Glyph2Json(d) == [kind |-> d.kind, pts |-> d.pts, ends |-> d.ends, comps |-> d.comps, gv |-> GvJson(d.gv),
+                  adv |-> d.adv, pp1 |-> d.pp1]
+BoolN(b) == IF b THEN 1 ELSE 0
+Vac2(cs) ==
+  CASE cs.fam = "avar" ->
+         [avar_fonts |-> BoolN(cs.avar.present), avar_skew_tuples |-> AvarSkew(cs),
+          avar_all_default_patterns |-> BoolN(AvarPatterns(cs) = P2(Len(cs.axes))),
+          avar_axes3 |-> BoolN(Len(cs.axes) = 3), avar_user_tuples |-> Cardinality(cs.users),
+          avar_maps_knots0 |-> BoolN(cs.avar.present /\ \E k \in 1 .. Len(cs.axes) : Len(cs.avar.maps[k]) = 0),
+          avar_maps_knots3 |-> BoolN(cs.avar.present /\ \E k \in 1 .. Len(cs.axes) : Len(cs.avar.maps[k]) = 3),
+          avar_maps_knots9 |-> BoolN(cs.avar.present /\ \E k \in 1 .. Len(cs.axes) : Len(cs.avar.maps[k]) = 9),
+          avar_with_hvar |-> BoolN(cs.hvar.present),
+          avar_fvar_axis_size_gt20 |-> BoolN(cs.lay.fvAxisSize > 20 /\ Len(cs.axes) > 1)]
+    [] cs.fam = "nest" ->
+         [nest_forward_refs |-> NestRefs(cs, TRUE), nest_backward_refs |-> NestRefs(cs, FALSE),
+          nest_depth3 |-> BoolN(NestDepth(cs) >= 3),
+          nest_forward_no_hvar |-> BoolN(NestRefs(cs, TRUE) > 0 /\ ~cs.hvar.present),
+          nest_forward_hvar_no_lsbmap |-> BoolN(NestRefs(cs, TRUE) > 0 /\ cs.hvar.present /\ ~cs.hvar.lsb.present),
+          nest_forward_hvar_lsbmap |-> BoolN(NestRefs(cs, TRUE) > 0 /\ cs.hvar.present /\ cs.hvar.lsb.present),
+          nest_unvaried_composite |-> BoolN(\E k \in 1 .. NG(cs) : cs.glyphs[k].kind = "composite" /\ cs.glyphs[k].gv.tuples = <<>>)]
+    [] OTHER ->
+         [lay_mvar_rec8 |-> BoolN(cs.mvar.present /\ cs.mvar.recSize = 8),
+          lay_mvar_rec10 |-> BoolN(cs.mvar.present /\ cs.mvar.recSize = 10),
+          lay_mvar_rec12 |-> BoolN(cs.mvar.present /\ cs.mvar.recSize = 12),
+          lay_mvar_big_several_records |-> BoolN(cs.mvar.present /\ cs.mvar.recSize > 8 /\ Len(cs.mvar.recs) > 1),
+          lay_mvar_absent_tags |-> IF cs.mvar.present THEN Len(MvarTags) - Len(cs.mvar.recs) ELSE 0,
+          lay_mvar_first_tag_absent |-> BoolN(cs.mvar.present /\ \A k \in 1 .. Len(cs.mvar.recs) : cs.mvar.recs[k].tag # "cpht"),
+          lay_mvar_two_subs |-> BoolN(cs.mvar.present /\ Len(cs.mvar.subs) > 1),
+          lay_hvar_long_words |-> BoolN(\E k \in 1 .. Len(cs.hvar.subs) : cs.hvar.subs[k].long),
+          lay_hvar_ri_not_prefix |-> BoolN(\E k \in 1 .. Len(cs.hvar.subs) :
+                                            cs.hvar.subs[k].ri # [j \in 1 .. Len(cs.hvar.subs[k].ri) |-> j - 1]),
+          lay_hvar_several_subs |-> BoolN(Len(cs.hvar.subs) > 1),
+          lay_map_entry1 |-> BoolN(cs.hvar.adv.present /\ EntrySize(cs.hvar.adv.fmt) = 1),
+          lay_map_entry2 |-> BoolN(cs.hvar.adv.present /\ EntrySize(cs.hvar.adv.fmt) = 2),
+          lay_map_entry3 |-> BoolN(cs.hvar.adv.present /\ EntrySize(cs.hvar.adv.fmt) = 3),
+          lay_map_entry4 |-> BoolN(cs.hvar.adv.present /\ EntrySize(cs.hvar.adv.fmt) = 4),
+          lay_map_format1 |-> BoolN(cs.hvar.adv.present /\ cs.hvar.adv.format = 1),
+          lay_map_outer_nonzero |-> BoolN(cs.hvar.adv.present /\ \E k \in 1 .. Len(cs.hvar.adv.entries) : cs.hvar.adv.entries[k][1] > 0),
+          lay_fvar_axis_size_gt20 |-> BoolN(cs.lay.fvAxisSize > 20),
+          lay_fvar_instances |-> BoolN(cs.lay.fvInst > 0),
+          lay_fvar_offset_gt16 |-> BoolN(cs.lay.fvOffset > 16)]
+
+EmitCase2 ==
+  (done /\ c.kind = "font2") =>
+    LET us == SetToSeq(c.users)
+        zero == [k \in 1 .. Len(c.axes) |-> 0]
+    IN
+    PrintT(<<"CASE", ToJson([fam |-> c.fam, var |-> c.var, gen |-> 2, naxes |-> Len(c.axes), axes |-> c.axes,
+                             avar |-> c.avar, glyphs |-> [k \in 1 .. NG(c) |-> Glyph2Json(c.glyphs[k])],
+                             boxes |-> [k \in 1 .. NG(c) |-> DBox(c.glyphs, k - 1)],
+                             long |-> c.long, nhm |-> c.nhm, mayfail |-> FALSE, lay |-> c.lay,
+                             hvar |-> [present |-> c.hvar.present, regions |-> c.hvar.regions,
+                                       subs |-> [k \in 1 .. Len(c.hvar.subs) |-> SubJson(c.hvar.subs[k])],
+                                       adv |-> MapJson(c.hvar.adv), lsb |-> MapJson(c.hvar.lsb)],
+                             mvar |-> [present |-> c.mvar.present, regions |-> c.mvar.regions,
+                                       subs |-> [k \in 1 .. Len(c.mvar.subs) |-> SubJson(c.mvar.subs[k])],
+                                       recs |-> c.mvar.recs, recSize |-> c.mvar.recSize],
+                             vac |-> Vac2(c),
+                             user |-> us, norm |-> [k \in 1 .. Len(us) |-> Norm2(c, us[k])], ntol |-> NTol(c),
+                             expect |-> [k \in 1 .. Len(us) |->
+                                           [g \in 1 .. NG(c) |-> GlyphExpect(G2Rec(c, g - 1), A2Rec(c, g - 1, Norm2(c, us[k])))]]])>>)
+
 \* one line per lemma state, for the vacuity counters of the driver
 EmitLemma ==
-  (done /\ c.kind # "font") => PrintT(<<"LEMMA", c.kind>>)
+  (done /\ c.kind \notin {"font", "font2"}) => PrintT(<<"LEMMA", c.kind>>)
+
+---------------------------------------------------------------------------
+\* Tier "gen2" (development only, MC_Variation_gen2.cfg): the generation-2 fonts of the quick tier alone
+Cases == IF Tier = "gen2" THEN Font2Cases
+         ELSE FontCases \cup Font2Cases \cup ScalarLemmaCases \cup IupLemmaCases \cup CodecLemmaCases
+
+Init == /\ c \in Cases
+        /\ done = FALSE
+Next == /\ ~done /\ done' = TRUE /\ UNCHANGED c
+Spec == Init /\ [][Next]_vars
 =============================================================================
